@@ -46,9 +46,14 @@ def models(tier, seed):
 
 
 def _rand_events(rnd, n):
-    return [{'dest': rnd.randint(1, 3), 'etype': rnd.choice(['e1', 'e2', 'put']),
-             'filters': rnd.choice(FILTER_MENU), 'form': rnd.choice(['single', 'list', 'tuple'])}
-            for _ in range(n)]
+    evs = [{'dest': rnd.randint(1, 3), 'etype': rnd.choice(['e1', 'e2', 'put']),
+            'filters': rnd.choice(FILTER_MENU), 'form': rnd.choice(['single', 'list', 'tuple'])}
+           for _ in range(n)]
+    for i in range(1, n):
+        if rnd.random() < 0.2:
+            # the very same Event object listed once more: sent once more
+            evs[i] = dict(evs[rnd.randrange(i)], same=True)
+    return evs
 
 
 def stimuli(tier, seed, ctx):
@@ -60,7 +65,10 @@ def stimuli(tier, seed, ctx):
         hist = [rnd.randint(1, nobj) for _ in range(rnd.randint(1, 12))]
         out.append({'kind': kind, 'on_output': _rand_events(rnd, rnd.randint(0, 3)),
                     'on_every': _rand_events(rnd, rnd.randint(0, 3)) if kind != 'c' else [],
-                    'hist': hist})
+                    'hist': hist,
+                    # assignments made after the stop was requested (before the clean-up runs)
+                    'late': [rnd.randint(1, nobj) for _ in range(rnd.randint(1, 3))]
+                            if kind != 'c' and rnd.random() < 0.3 else []})
     if tier == 'thorough':      # all histories <= 4 over one object per class + the equal twins
         ids = [1, 2, 3, 5, 7, 8]
         for kind in ('s', 'c'):
@@ -120,8 +128,15 @@ def execute(stim):
         """like ValuePoll: set_output() is overridden by the add-on"""
 
     def events(lst):
-        evs = [edzed.Event(f'd{e["dest"]}', e['etype'],
-                           efilter=[_mk_filter(f, edzed) for f in e['filters']]) for e in lst]
+        evs, made = [], {}
+        for e in lst:
+            key = repr((e['dest'], e['etype'], e['filters']))
+            if e.get('same') and key in made:
+                evs.append(made[key])
+                continue
+            made[key] = edzed.Event(f'd{e["dest"]}', e['etype'],
+                                    efilter=[_mk_filter(f, edzed) for f in e['filters']])
+            evs.append(made[key])
         if not evs:
             return None
         form = lst[0]['form']
@@ -175,6 +190,19 @@ def execute(stim):
                         'late': len(got) - len(deliv)})
         if circuit.error is not None:
             log.append({'ev': 'circuit_error'})
+            return
+        if stim.get('late') and kind != 'c':
+            import asyncio
+            circuit.abort(asyncio.CancelledError('shutdown'))       # what shutdown() does first
+            for v in stim['late']:
+                del got[:]
+                try:
+                    snd.event('set' if kind in ('s', 'a') else 'put', value=objs[v - 1])
+                except edzed.EdzedError:
+                    log.append({'ev': 'send_failed'})
+                    return
+                log.append({'ev': 'assign', 'v': cls[v - 1], 'deliv': list(got), 'out': tag(snd.output),
+                            'late': 0})
 
     rt.run_circuit(build, script)
     strip = lambda lst: [{'dest': e['dest'], 'etype': e['etype'], 'filters': e['filters']} for e in lst]
